@@ -1074,6 +1074,11 @@ def max(x, axis=None):
 amin, amax = min, max
 
 
+def ptp(x, axis=None):
+    x = asarray(x)
+    return _sub(_fold_minmax(x, "max"), _fold_minmax(x, "min"))
+
+
 def nanmax(x):
     x = asarray(x)
     x._nonempty("fmax")
